@@ -1,10 +1,16 @@
 #!/bin/bash
-# MANIFEST.setup_cmd: build every harness binary offline from files on disk.
+# MANIFEST.setup_cmd: build the harness binaries of all registered checks, offline, from files on disk.
 set -eu
 export CARGO_NET_OFFLINE=true
 export CARGO_TARGET_DIR="${MZV_TARGET_DIR:-/verif/target}"
 cd /verif/harness
 cp /repo/Cargo.lock Cargo.lock
-cargo build --release --offline --features hooks --bins 2>&1 | tail -3
-# reference-model self tests (a reference bug must show up here, not as a violation)
-if [ -x "$CARGO_TARGET_DIR/release/refs_selftest" ]; then "$CARGO_TARGET_DIR/release/refs_selftest"; fi
+BINS=$(python3 -c "
+import json
+m=json.load(open('/verif/MANIFEST.json'))
+print(' '.join('--bin '+c['property_id'].lower() for c in m['checks']))
+")
+if [ -n "$BINS" ]; then
+  cargo build --release --offline --features hooks $BINS 2>&1 | tail -3
+fi
+echo "setup done"
